@@ -6,7 +6,9 @@ import (
 	"go/parser"
 	"go/token"
 	"math/rand"
+	"regexp"
 	"sort"
+	"strconv"
 	"strings"
 
 	"vharness/internal/base"
@@ -426,7 +428,13 @@ func CheckC08(tier string) {
 		}
 		switch {
 		case len(o.Leaked) > 0:
-			rep.Violate(base.Violation{Sig: "C08/leak/" + class + "/" + leakKind(o.Leaked),
+			sig := "C08/leak/" + class + "/" + leakKind(o.Leaked)
+			if class == "provider-error-on-caller-goroutine" {
+				// whom do the parked goroutines wait for? (read off the generated
+				// text, as a description of the witness)
+				sig += "/" + leakRoot(r.Case.P, r.Case.In.Name, o.Leaked)
+			}
+			rep.Violate(base.Violation{Sig: sig,
 				What:  fmt.Sprintf("%s :: %s: the injector returned (err=%q) and every entered provider exited, but %d goroutine(s) it started stay blocked forever: %v", s.Describe(r.Case.In), r.Sc.ID, o.ErrText, len(o.Leaked), o.Leaked),
 				Files: caseFiles(r.Case, &r.Sc, o, nil)})
 		case o.LeakUnsettled:
@@ -439,6 +447,140 @@ func CheckC08(tier string) {
 	rep.Cov["calls_returning_with_live_goroutines"] = alive
 	rep.Cov["of_which_all_goroutines_exited_on_their_own"] = exited
 	rep.Finish()
+}
+
+var reBandLine = regexp.MustCompile(`_band\.go:(\d+)`)
+
+// leakRoot describes, from the generated text, whom the leaked goroutines are
+// waiting for: "awaits-caller-goroutine" if at least one of them is parked on a
+// completion channel that only the injector's own goroutine closes (it has
+// returned: nobody ever will), else "awaits-other-goroutine" (every awaited
+// channel belongs to a goroutine the injector started).
+func leakRoot(p *runner.Prog, inj string, leaked []string) string {
+	for name, txt := range p.Band {
+		fset := token.NewFileSet()
+		f, err := parser.ParseFile(fset, name, txt, 0)
+		if err != nil {
+			continue
+		}
+		for _, d := range f.Decls {
+			fd, ok := d.(*ast.FuncDecl)
+			if !ok || fd.Name.Name != inj || fd.Body == nil {
+				continue
+			}
+			// channels closed on the injector's own goroutine (outside any func literal)
+			callerCloses := map[string]bool{}
+			var walk func(n ast.Node, inLit bool)
+			walk = func(n ast.Node, inLit bool) {
+				ast.Inspect(n, func(x ast.Node) bool {
+					switch v := x.(type) {
+					case *ast.FuncLit:
+						if x != n {
+							walk(v.Body, true)
+							return false
+						}
+					case *ast.RangeStmt:
+						// for _, ch := range []chan struct{}{aCh, bCh} { close(ch) }
+						if cl, ok := v.X.(*ast.CompositeLit); ok && !inLit {
+							closes := false
+							ast.Inspect(v.Body, func(y ast.Node) bool {
+								if c, ok := y.(*ast.CallExpr); ok {
+									if id, ok := c.Fun.(*ast.Ident); ok && id.Name == "close" {
+										closes = true
+									}
+								}
+								return true
+							})
+							if closes {
+								for _, e := range cl.Elts {
+									if id, ok := e.(*ast.Ident); ok {
+										callerCloses[id.Name] = true
+									}
+								}
+							}
+						}
+					case *ast.CallExpr:
+						if id, ok := v.Fun.(*ast.Ident); ok && id.Name == "close" && len(v.Args) == 1 && !inLit {
+							if a, ok := v.Args[0].(*ast.Ident); ok {
+								callerCloses[a.Name] = true
+							}
+						}
+					}
+					return true
+				})
+			}
+			walk(fd.Body, false)
+			// channels awaited at the parked lines
+			awaited := map[string]bool{}
+			for _, fr := range leaked {
+				m := reBandLine.FindStringSubmatch(fr)
+				if m == nil {
+					continue
+				}
+				line, _ := strconv.Atoi(m[1])
+				// innermost wait statement containing the parked line
+				var stmt ast.Node
+				ast.Inspect(fd.Body, func(x ast.Node) bool {
+					if x == nil {
+						return true
+					}
+					from, to := fset.Position(x.Pos()).Line, fset.Position(x.End()).Line
+					if line < from || line > to {
+						return false
+					}
+					switch x.(type) {
+					case *ast.RangeStmt, *ast.SelectStmt, *ast.ExprStmt:
+						stmt = x
+					}
+					return true
+				})
+				if stmt == nil {
+					continue
+				}
+				if sel, ok := stmt.(*ast.SelectStmt); ok {
+					// a select inside `for _, ch := range []<-chan struct{}{...}`: the loop lists the channels
+					ast.Inspect(fd.Body, func(x ast.Node) bool {
+						if rs, ok := x.(*ast.RangeStmt); ok && rs.Pos() <= sel.Pos() && sel.End() <= rs.End() {
+							if cl, ok := rs.X.(*ast.CompositeLit); ok {
+								for _, e := range cl.Elts {
+									if id, ok := e.(*ast.Ident); ok {
+										awaited[id.Name] = true
+									}
+								}
+							}
+						}
+						return true
+					})
+				}
+				ast.Inspect(stmt, func(x ast.Node) bool {
+					switch v := x.(type) {
+					case *ast.CompositeLit:
+						for _, e := range v.Elts {
+							if id, ok := e.(*ast.Ident); ok {
+								awaited[id.Name] = true
+							}
+						}
+					case *ast.UnaryExpr:
+						if v.Op == token.ARROW {
+							if id, ok := v.X.(*ast.Ident); ok && id.Name != "ch" {
+								awaited[id.Name] = true
+							}
+						}
+					}
+					return true
+				})
+			}
+			for ch := range awaited {
+				if callerCloses[ch] {
+					return "awaits-caller-goroutine"
+				}
+			}
+			if len(awaited) > 0 {
+				return "awaits-other-goroutine"
+			}
+		}
+	}
+	return "awaits-unknown"
 }
 
 func leakKind(frames []string) string {
